@@ -243,6 +243,13 @@ class Interp:
                 fty = v['fields'][i]['ty']
         return self.const_val(st, f, fty)
 
+    def name_table(self, v, name):
+        if isinstance(v, VArray):
+            v.name = name
+            for i, e in enumerate(v.elems):
+                if isinstance(e, VArray):
+                    self.name_table(e, f"{name}[{i}]")
+
     def const_operand(self, st, o) -> Val:
         if 'ref' in o:
             key = o['ref']
@@ -250,6 +257,7 @@ class Interp:
             if v is None:
                 c = self.facts.const(key)
                 v = self.const_val(st, c['val'], c['ty'])
+                self.name_table(v, key)
                 self.const_cache[key] = v
             return v
         return self.const_val(st, o['val'], o['ty'])
@@ -373,7 +381,12 @@ class Interp:
                 raise Infeasible()
             if lo == hi:
                 return v.elems[lo]
-            return self.vjoin_many(st, list(v.elems[lo:hi + 1]))
+            r = self.vjoin_many(st, list(v.elems[lo:hi + 1]))
+            nm = getattr(v, 'name', None)
+            if nm is not None and isinstance(r, VInt) and len(r.form.terms) == 1 and r.form.c == 0:
+                # remember which table and index expression a joined lookup came from
+                SYMTAB.syms[r.form.terms[0][0]].data = ('tbl', nm, iv.form, lo, hi)
+            return r
         if isinstance(v, VSlice):
             return self.slice_elem(st, v, iv.form)
         raise AnalysisIncomplete(f"index of {v!r}")
@@ -661,6 +674,14 @@ class Interp:
                     jn.neq[s] = both
         jn.divs = a.num.divs | b.num.divs
         jn.nez = [f for f in a.num.nez if f in b.num.nez]
+        jn.congf = [f for f in a.num.congf if f in b.num.congf]
+        for q, (lo, hi) in a.num.remb.items():
+            o = b.num.remb.get(q)
+            if o is not None:
+                jn.remb[q] = (min(lo, o[0]), max(hi, o[1]))
+        for q, pk in a.num.parent.items():
+            if b.num.parent.get(q) == pk:
+                jn.parent[q] = pk
         j.num = jn
         for fid in a.frames:
             fa, fb = a.frames[fid], b.frames[fid]
@@ -919,6 +940,44 @@ class Interp:
             return Form.sym(s)
         return None
 
+    def fork_small_index(self, st: State, fid, place):
+        """case split on the index of a small constant table of non-scalar entries (enum values, (fn, offset)
+        pairs): keeps the correlation between the index and the selected entry"""
+        try:
+            root = ('loc', fid, place['l'])
+            path = ()
+            for e in place['p']:
+                k = e['k']
+                if k == 'index':
+                    base = self.load(st, root, path)
+                    iv = st.frames[fid].get(e['l'])
+                    if isinstance(base, VArray) and isinstance(iv, VInt) and 2 <= len(base.elems) <= 8 \
+                            and not isinstance(base.elems[0], (VInt, VSlice, VFloat, VBool)):
+                        lo, hi = st.num.rng(iv.form)
+                        lo, hi = max(lo, 0), min(hi, len(base.elems) - 1)
+                        if lo < hi:
+                            self.events.append(('table-index', getattr(base, 'name', None), iv.form, lo, hi))
+                            out = []
+                            for kk in range(lo, hi + 1):
+                                out.extend(self.assume(st.copy(), ('cmp', 'eq', iv.form, Form.const(kk)), True))
+                            return out
+                    return None
+                if k == 'deref':
+                    v = self.load(st, root, path)
+                    if isinstance(v, VRef):
+                        root, path = v.root, v.path
+                    else:
+                        return None
+                elif k == 'field':
+                    path = path + (('f', e['i'], e.get('ty')),)
+                elif k == 'downcast':
+                    path = path + (('v', e['v']),)
+                else:
+                    return None
+        except (AnalysisIncomplete, Infeasible):
+            return None
+        return None
+
     def fits(self, st: State, f: Form, ty) -> bool:
         lo, hi = st.num.rng(f)
         tlo, thi = self.irange(ty)
@@ -943,6 +1002,11 @@ class Interp:
         """returns list of (state, value); forks on discriminant reads of multi-variant values"""
         k = rv['r']
         if k == 'use':
+            o = rv['a']
+            if o['o'] in ('copy', 'move') and any(e['k'] == 'index' for e in o['p']['p']):
+                forks = self.fork_small_index(st, fid, o['p'])
+                if forks is not None:
+                    return [(s2, self.operand(s2, fid, o)) for s2 in forks]
             return [(st, self.operand(st, fid, rv['a']))]
         if k == 'bin':
             a = self.operand(st, fid, rv['a'])
@@ -1255,7 +1319,7 @@ class Interp:
             out.append((s, v2 if v2 is not None else v))
         if len(out) > self.max_states:
             self.max_states = len(out)
-        if st.stack and len(out) > self.spec.merge_limit(key):
+        if st.stack and len(out) > self.spec.merge_limit(key, st):
             out = self.merge_exits(out)
         return out
 
@@ -1665,6 +1729,20 @@ class Interp:
                 hi = max(s.num.rng(v.form)[1] for s, v in res)
                 self.spec.d2j_range = (lo, hi)
                 self.kernel_d2j = (args, res)
+
+    def run_internal(self, key):
+        """analyse an internal (non-public) function out of line under its precondition"""
+        self.root = key
+        self.events = []
+        self.steps_root = self.steps
+        st = State()
+        args = self.spec.internal_args(self, st, key)
+        self.spec.inline_assembly = True
+        try:
+            res = self.call_local(st, key, args)
+        finally:
+            self.spec.inline_assembly = False
+        return st, args, res
 
     def run_root(self, key, variant=None):
         self.root = key
